@@ -1,4 +1,5 @@
 import Eru.Store.Ref
+import Eru.Store.ModelFacts
 /-
 Canonical text forms of keys, values and results: exactly the strings the Go harness
 (`harness/store/store_test.go`: canonVal, canonNodes, canonWls, …) derives from the real
@@ -15,19 +16,31 @@ def renderLabels (ls : Labels) : String :=
 
 def slash (ps : List String) : String := String.intercalate "/" (joinParts ps)
 
+/-- the key strings, written with the templates of `Eru.Store.Facts` (which are regenerated from
+    store/etcdv3/mercury.go and store/redis/rediaron.go on every run) the way the Go code builds
+    them: `fmt.Sprintf(template, …)` resp. `filepath.Join(prefix, …)` -/
 def Key.render : Key → String
-  | .pod n => "/pod/info/" ++ n
-  | .node n => "/node/" ++ n
-  | .nodePod p n => "/node/" ++ p ++ ":pod/" ++ n
-  | .ca n => "/node/" ++ n ++ ":ca"
-  | .cert n => "/node/" ++ n ++ ":cert"
-  | .ckey n => "/node/" ++ n ++ ":key"
-  | .wl id => "/workloads/" ++ id
-  | .nodeWl n id => "/node/" ++ n ++ ":workloads/" ++ id
-  | .deploy a e n id => "/deploy/" ++ slash [a, e, n, id]
-  | .wst a e n id => "/status/" ++ slash [a, e, n, id]
-  | .nst n => "/status:node/" ++ n
-  | .proc a e n i => "/processing/" ++ slash [a, e, n, i]
+  | .pod n => Facts.sprintf Facts.podInfoKey [n]
+  | .node n => Facts.sprintf Facts.nodeInfoKey [n]
+  | .nodePod p n => Facts.sprintf Facts.nodePodKey [p, n]
+  | .ca n => Facts.sprintf Facts.nodeCaKey [n]
+  | .cert n => Facts.sprintf Facts.nodeCertKey [n]
+  | .ckey n => Facts.sprintf Facts.nodeKeyKey [n]
+  | .wl id => Facts.sprintf Facts.workloadInfoKey [id]
+  | .nodeWl n id => Facts.sprintf Facts.nodeWorkloadsKey [n, id]
+  | .deploy a e n id => Facts.joinUnder Facts.workloadDeployPrefix [a, e, n, id]
+  | .wst a e n id => Facts.joinUnder Facts.workloadStatusPrefix [a, e, n, id]
+  | .nst n => Facts.nodeStatusPrefix ++ n
+  | .proc a e n i => Facts.joinUnder Facts.workloadProcessingPrefix [a, e, n, i]
+
+#guard (Key.pod "p1").render == "/pod/info/p1"
+#guard (Key.nodePod "p1" "n1").render == "/node/p1:pod/n1"
+#guard (Key.nodeWl "n1" "w1").render == "/node/n1:workloads/w1"
+#guard (Key.ckey "n1").render == "/node/n1:key"
+#guard (Key.deploy "a" "e" "n" "w").render == "/deploy/a/e/n/w"
+#guard (Key.wst "a" "e" "n" "w").render == "/status/a/e/n/w"
+#guard (Key.nst "n1").render == "/status:node/n1"
+#guard (Key.proc "a" "e" "n" "i").render == "/processing/a/e/n/i"
 
 def NodeRec.render (r : NodeRec) : String :=
   bar [r.name, r.pod, r.endpoint, renderLabels r.labels, b01 r.test, b01 r.bypass]
